@@ -314,7 +314,8 @@ def run(ctx):
     # O5
     mc = "<minijinja::vm::macro_object::Macro as minijinja::value::object::Object>::call"
     if prog.has_fn(mc):
-        f = prog.fn(mc)
+        # read through a helper the body evaluation may have been moved into (`self.render_body(state, ..)`)
+        f = prog.view(mc, keep=("eval_macro", "new", "from_safe_string", "with_capacity", "auto_escape"))
         evs = [c for c in f.calls() if c.name.endswith("vm::eval_macro") or c.name.endswith("Executor::eval_macro")]
         ctx.floor("C19.O5 eval_macro calls in Macro::call", len(evs), 1)
         for c in evs:
